@@ -15,7 +15,8 @@ from ..vlib import build, tlc, util
 from ..vlib.report import MachineryError, Report
 
 util.ensure_repo_importable()
-from strengths import (RDGridSpace, RDNetwork, RDScript, RDSystem, Reaction, Species, UnitArray, UnitValue, UnitsSystem)  # noqa: E402
+from strengths import (RDGridSpace, RDNetwork, RDScript, RDSystem, Reaction, Species, UnitArray, UnitValue, UnitsSystem,
+                       rdscript_from_dict, rdscript_to_dict)  # noqa: E402
 from strengths.coarsegrain import grid_to_graph  # noqa: E402
 
 PROP = "C14"
@@ -44,6 +45,13 @@ def _job(args):
         os.close(r)
         try:
             system = mk_system(ncells, space, state)
+            # (two jobs out of three start after a simulation of another engine kind in the same process, as a session would)
+            prev = ["gillespie", "tauleap", "euler"][(seed + ncells) % 3]
+            if prev != kind and (seed + 2 * ncells) % 3 != 0:
+                e0 = build.make_engine(prev, lib=_lib)
+                e0.setup(RDScript(system=system, t_sample=[UnitValue(0.0, "s")], time_step=UnitValue(0.5, "s"), rng_seed=seed + 1))
+                e0.iterate()
+                e0.finalize()
             outs = []
             for rep_i in range(2):
                 kw = {}
@@ -51,6 +59,9 @@ def _job(args):
                     kw["units_system"] = UnitsSystem(space=usys[0], time=usys[1], quantity=usys[2])
                 script = RDScript(system=system, t_sample=[UnitValue(0.0, "s"), UnitValue(1.0, "s")], time_step=UnitValue(0.5, "s"),
                                   rng_seed=seed, init_state_processing=mode, **kw)
+                if rep_i == 1 and (seed + ncells) % 2 == 0:
+                    # the repetition runs the script read back from its own dictionary: the same mode, seed and state
+                    script = rdscript_from_dict(json.loads(json.dumps(rdscript_to_dict(script))))
                 eng = build.make_engine(kind, lib=_lib)
                 eng.setup(script)
                 x0 = engine_rec.raw_state(_lib, 2 * ncells)
